@@ -81,6 +81,17 @@ class InlineDefinedFuns:
         res = get_defined_fun(node)
         if res == node:
             return []
+        if not node.is_leaf():
+            # an argument must not be captured by a binder of the body
+            bound = set()
+            for n in nodes.dfs(res):
+                if n.has_ident() and len(n) > 1 and not n[1].is_leaf() \
+                   and n.get_ident() in ['let', 'exists', 'forall']:
+                    bound.update(b[0].data for b in n[1]
+                                 if len(b) > 0 and b[0].is_leaf())
+            if any(n.is_leaf() and n.data in bound
+                   for n in nodes.dfs(node[1:])):
+                return []
         return [Simplification({node.id: res}, [])]
 
     def __str__(self):
